@@ -217,6 +217,59 @@ Fixpoint find_tag (tags : list N) (b : N) (i : N) : option N :=
 
 Definition nth_ty (vs : list ty) (i : N) : option ty := nth_error vs (N.to_nat i).
 
+
+(** * List combinators (the function is a section variable so that the guard
+    checker sees through them when they are used in a [Fixpoint] on [ty]) *)
+Section Comb.
+  Context {A B : Type}.
+  Section All2. Variable f : A -> B -> bool.
+    Fixpoint all2 (la : list A) (lb : list B) : bool :=
+      match la, lb with
+      | [], [] => true
+      | a :: ra, b :: rb => f a b && all2 ra rb
+      | _, _ => false
+      end.
+  End All2.
+  Section NthOr. Context {R : Type}. Variable f : A -> R. Variable d : R.
+    (** [f] of the [n]-th element, [d] when out of range *)
+    Fixpoint nth_or (l : list A) (n : nat) : R :=
+      match l, n with
+      | x :: _, O => f x
+      | _ :: r, S n' => nth_or r n'
+      | [], _ => d
+      end.
+  End NthOr.
+End Comb.
+
+Section ValComb.
+  (** lexicographic order of two lists under one element order *)
+  Section LexBy. Variable f : val -> val -> comparison.
+    Fixpoint lex_by (l1 l2 : list val) : comparison :=
+      match l1, l2 with
+      | [], [] => Eq
+      | [], _ :: _ => Lt
+      | _ :: _, [] => Gt
+      | x :: r1, y :: r2 => match f x y with Eq => lex_by r1 r2 | c => c end
+      end.
+  End LexBy.
+  (** lexicographic order of two field lists, field types given *)
+  Section Lex2. Variable f : ty -> val -> val -> comparison.
+    Fixpoint lex2 (ts : list ty) (l1 l2 : list val) : comparison :=
+      match ts, l1, l2 with
+      | t' :: tr, x :: r1, y :: r2 => match f t' x y with Eq => lex2 tr r1 r2 | c => c end
+      | _, _, _ => Eq
+      end.
+  End Lex2.
+  (** per-field map with skip flags: a skipped field becomes [d t'] *)
+  Section MapFields. Variable f : ty -> val -> val. Variable d : ty -> val.
+    Fixpoint map_fields (ts : list ty) (sk : list bool) (l : list val) : list val :=
+      match ts, sk, l with
+      | t' :: tr, s :: sr, x :: r => (if s then d t' else f t' x) :: map_fields tr sr r
+      | _, _, _ => []
+      end.
+  End MapFields.
+End ValComb.
+
 (** * Memory-zero-size: the model of [size_of::<T>() == 0] *)
 Fixpoint mem_zst (t : ty) : bool :=
   match t with
@@ -226,8 +279,7 @@ Fixpoint mem_zst (t : ty) : bool :=
   | TProd k ts =>
       match k with
       | PRange RRangeInclusive => false        (* carries an [exhausted] flag *)
-      | _ => (fix all (l : list ty) : bool :=
-                match l with [] => true | x :: r => mem_zst x && all r end) ts
+      | _ => forallb (fun x => mem_zst x) ts
       end
   | TSum _ vs =>
       match vs with
@@ -247,8 +299,7 @@ Fixpoint default_of (t : ty) : val :=
   | TSeq SDeque _ => VL [VL []; VL []]
   | TSeq _ _ => VL []
   | TArray n t' => VL (repeat (default_of t') (N.to_nat n))
-  | TProd _ ts => VL ((fix go (l : list ty) : list val :=
-                         match l with [] => [] | x :: r => default_of x :: go r end) ts)
+  | TProd _ ts => VL (map (fun x => default_of x) ts)
   | TSum _ vs => match vs with v :: _ => VV 0 (default_of v) | [] => VV 0 (VL []) end
   | TWrap _ t' => default_of t'
   end.
@@ -266,9 +317,7 @@ Fixpoint has_default (t : ty) : bool :=
   | TSeq _ _ => true
   | TArray n t' => (n <=? 32) && has_default t'
   | TProd PTuple ts =>
-      (Nat.leb (length ts) 12) &&
-      (fix all (l : list ty) : bool :=
-         match l with [] => true | x :: r => has_default x && all r end) ts
+      (Nat.leb (length ts) 12) && forallb (fun x => has_default x) ts
   | TProd _ _ => false
   | TSum KOption _ => true
   | TSum _ _ => false
@@ -280,6 +329,9 @@ Fixpoint has_default (t : ty) : bool :=
 Definition lex_cmp (c : comparison) (k : comparison) : comparison :=
   match c with Eq => k | _ => c end.
 
+Definition lex_bytes : list val -> list val -> comparison :=
+  lex_by (fun a b => match a, b with VN x, VN y => N.compare x y | _, _ => Eq end).
+
 Fixpoint cmp_val (t : ty) (a b : val) {struct t} : comparison :=
   match t with
   | TPrim p =>
@@ -290,49 +342,23 @@ Fixpoint cmp_val (t : ty) (a b : val) {struct t} : comparison :=
   | TUnit _ => Eq
   | TRaw _ | TText _ =>
       match a, b with
-      | VL la, VL lb =>
-          (fix lex (l1 l2 : list val) : comparison :=
-             match l1, l2 with
-             | [], [] => Eq
-             | [], _ :: _ => Lt
-             | _ :: _, [] => Gt
-             | VN x :: r1, VN y :: r2 => lex_cmp (N.compare x y) (lex r1 r2)
-             | _ :: r1, _ :: r2 => lex r1 r2
-             end) la lb
+      | VL la, VL lb => lex_bytes la lb
       | _, _ => Eq
       end
   | TSeq _ t' | TArray _ t' =>
       match a, b with
-      | VL la, VL lb =>
-          (fix lex (l1 l2 : list val) : comparison :=
-             match l1, l2 with
-             | [], [] => Eq
-             | [], _ :: _ => Lt
-             | _ :: _, [] => Gt
-             | x :: r1, y :: r2 => lex_cmp (cmp_val t' x y) (lex r1 r2)
-             end) la lb
+      | VL la, VL lb => lex_by (cmp_val t') la lb
       | _, _ => Eq
       end
   | TProd _ ts =>
       match a, b with
-      | VL la, VL lb =>
-          (fix go (ts : list ty) (l1 l2 : list val) : comparison :=
-             match ts, l1, l2 with
-             | t' :: tr, x :: r1, y :: r2 => lex_cmp (cmp_val t' x y) (go tr r1 r2)
-             | _, _, _ => Eq
-             end) ts la lb
+      | VL la, VL lb => lex2 (fun t' x y => cmp_val t' x y) ts la lb
       | _, _ => Eq
       end
   | TSum _ vs =>
       match a, b with
       | VV i x, VV j y =>
-          lex_cmp (N.compare i j)
-            ((fix pick (vs : list ty) (n : nat) : comparison :=
-                match vs, n with
-                | t' :: _, O => cmp_val t' x y
-                | _ :: r, S n' => pick r n'
-                | [], _ => Eq
-                end) vs (N.to_nat i))
+          lex_cmp (N.compare i j) (nth_or (fun t' => cmp_val t' x y) Eq vs (N.to_nat i))
       | _, _ => Eq
       end
   | TWrap _ t' => cmp_val t' a b
@@ -355,12 +381,8 @@ Fixpoint key_ok (t : ty) : bool :=
   | TSeq _ _ => false
   | TArray _ t' => key_ok t'
   | TProd k ts =>
-      (forallb negb (prod_skips k (length ts))) &&
-      (fix all (l : list ty) : bool :=
-         match l with [] => true | x :: r => key_ok x && all r end) ts
-  | TSum _ vs =>
-      (fix all (l : list ty) : bool :=
-         match l with [] => true | x :: r => key_ok x && all r end) vs
+      (forallb negb (prod_skips k (length ts))) && forallb (fun x => key_ok x) ts
+  | TSum _ vs => forallb (fun x => key_ok x) vs
   | TWrap WBox t' => key_ok t'
   | TWrap _ _ => false
   end.
@@ -434,7 +456,7 @@ Fixpoint has_ty (t : ty) (v : val) {struct t} : bool :=
   | TRaw k =>
       match v with
       | VL l => match vals_ns l with
-                | Some ns => all_byte ns && (N.of_nat (length ns) =? raw_len k)
+                | Some ns => all_byte ns && (len ns =? raw_len k)
                 | None => false
                 end
       | _ => false
@@ -448,13 +470,11 @@ Fixpoint has_ty (t : ty) (v : val) {struct t} : bool :=
       | _ => false
       end
   | TSeq k t' =>
-      let all := fix all (l : list val) : bool :=
-                   match l with [] => true | x :: r => has_ty t' x && all r end in
       match k, v with
-      | SDeque, VL [VL a; VL b] => all a && all b
+      | SDeque, VL [VL a; VL b] => forallb (has_ty t') a && forallb (has_ty t') b
       | SDeque, _ => false
       | _, VL l =>
-          all l &&
+          forallb (has_ty t') l &&
           match k with
           | SBTreeSet | SBTreeMap => strictly_ascending (cmp_val (key_ty k t')) (key_val k) l
           | SHashSet | SHashMap | SIndexSet | SIndexMap => no_dup_keys (cmp_val (key_ty k t')) (key_val k) l
@@ -464,29 +484,17 @@ Fixpoint has_ty (t : ty) (v : val) {struct t} : bool :=
       end
   | TArray n t' =>
       match v with
-      | VL l => (N.of_nat (length l) =? n) &&
-                (fix all (l : list val) : bool :=
-                   match l with [] => true | x :: r => has_ty t' x && all r end) l
+      | VL l => (len l =? n) && forallb (has_ty t') l
       | _ => false
       end
   | TProd _ ts =>
       match v with
-      | VL l => (fix go (ts : list ty) (l : list val) : bool :=
-                   match ts, l with
-                   | [], [] => true
-                   | t' :: tr, x :: r => has_ty t' x && go tr r
-                   | _, _ => false
-                   end) ts l
+      | VL l => all2 (fun t' x => has_ty t' x) ts l
       | _ => false
       end
   | TSum _ vs =>
       match v with
-      | VV i x => (fix pick (vs : list ty) (n : nat) : bool :=
-                     match vs, n with
-                     | t' :: _, O => has_ty t' x
-                     | _ :: r, S n' => pick r n'
-                     | [], _ => false
-                     end) vs (N.to_nat i)
+      | VV i x => nth_or (fun t' => has_ty t' x) false vs (N.to_nat i)
       | _ => false
       end
   | TWrap _ t' => has_ty t' v
@@ -499,7 +507,7 @@ Fixpoint logical (t : ty) (v : val) {struct t} : val :=
   | TSeq k t' =>
       let mp := map (logical t') in
       match k, v with
-      | SDeque, VL [VL a; VL b] => VL (mp (a ++ b))
+      | SDeque, VL [VL a; VL b] => VL [VL (mp (a ++ b)); VL []]
       | SDeque, _ => v
       | (SHashSet | SHashMap), VL l => VL (sort_by (cmp_val (key_ty k t')) (key_val k) (mp l))
       | _, VL l => VL (mp l)
@@ -508,22 +516,12 @@ Fixpoint logical (t : ty) (v : val) {struct t} : val :=
   | TArray _ t' => match v with VL l => VL (map (logical t') l) | _ => v end
   | TProd k ts =>
       match v with
-      | VL l => VL ((fix go (ts : list ty) (sk : list bool) (l : list val) : list val :=
-                       match ts, sk, l with
-                       | t' :: tr, s :: sr, x :: r =>
-                           (if s then default_of t' else logical t' x) :: go tr sr r
-                       | _, _, _ => []
-                       end) ts (prod_skips k (length ts)) l)
+      | VL l => VL (map_fields (fun t' x => logical t' x) default_of ts (prod_skips k (length ts)) l)
       | _ => v
       end
   | TSum _ vs =>
       match v with
-      | VV i x => VV i ((fix pick (vs : list ty) (n : nat) : val :=
-                           match vs, n with
-                           | t' :: _, O => logical t' x
-                           | _ :: r, S n' => pick r n'
-                           | [], _ => x
-                           end) vs (N.to_nat i))
+      | VV i x => VV i (nth_or (fun t' => logical t' x) x vs (N.to_nat i))
       | _ => v
       end
   | TWrap _ t' => logical t' v
@@ -545,6 +543,14 @@ Definition prod_arity_ok (k : prod_kind) (n : nat) : bool :=
   | PStruct _ _ sk | PVariant _ sk => Nat.eqb (length sk) n
   end.
 
+(** skipped fields need a [Default] *)
+Fixpoint skips_ok (ts : list ty) (sk : list bool) : bool :=
+  match ts, sk with
+  | t' :: tr, s :: sr => (if s then has_default t' else true) && skips_ok tr sr
+  | [], _ => true
+  | _ :: _, [] => false
+  end.
+
 Fixpoint wf (t : ty) : bool :=
   match t with
   | TPrim _ | TUnit _ | TRaw _ | TText _ => true
@@ -555,18 +561,11 @@ Fixpoint wf (t : ty) : bool :=
       (match k with SSlice => negb (mem_zst t') | _ => true end)
   | TArray _ t' => wf t'
   | TProd k ts =>
-      prod_arity_ok k (length ts) &&
-      (fix go (ts : list ty) (sk : list bool) : bool :=
-         match ts, sk with
-         | t' :: tr, s :: sr => wf t' && (if s then has_default t' else true) && go tr sr
-         | [], _ => true
-         | _ :: _, [] => false
-         end) ts (prod_skips k (length ts))
+      prod_arity_ok k (length ts) && skips_ok ts (prod_skips k (length ts)) && forallb (fun x => wf x) ts
   | TSum k vs =>
       Nat.eqb (length (sum_tags k)) (length vs) &&
       Nat.leb 1 (length vs) &&
       nodup_n (sum_tags k) && forallb (fun b => b <? 256) (sum_tags k) &&
-      (fix all (l : list ty) : bool :=
-         match l with [] => true | x :: r => wf x && all r end) vs
+      forallb (fun x => wf x) vs
   | TWrap _ t' => wf t'
   end.
